@@ -8,6 +8,7 @@ import Uom.Proofs.BodyEq.Conv
 import Uom.Proofs.OracleSound
 import Uom.Proofs.BodyEq.Powi
 import Uom.Proofs.BodyEq.UnitMac
+import Uom.Proofs.BodyEq.LibConst
 /-!
 # C03 — unit conversion on construction and read-back is numerically faithful (floats)
 
@@ -250,5 +251,22 @@ theorem src_unit_constant_float {F T R B : Type} (zero : F) (negF : F → F) (d 
   constant_float zero negF d L add
 
 end SourceTieUnit
+
+/-! ### tie to the source: the storage type's own `Conversion` impl (src/lib.rs, this run) -/
+section SourceTieLib
+open Uom.Rx Uom.Gen.RxBody Uom.BodyEq.LibConst
+
+/-- `V::coefficient()` — the start of every base-factor product — is `one()` (trait default), and the float
+    `constant(op)` override is the signed-zero pair of the storage algebra `flS` the theorems above are
+    stated over: `constAdd = −0.0`, `constSub = +0.0` -/
+theorem src_storage_coefficient {T : Type} (one zero : T) (neg : T → T) :
+    run (envLib one zero neg) lib_free_coefficient [] = (.val (.host one), []) := default_coefficient one zero neg
+theorem src_storage_constant_float (f : Fmt) :
+    run (envLib (Fl.one f) (Fl.zero f false) Fl.neg) lib_Conversion_Self_for_V_constant_Float [.ctor0 c_ConstantOp_Add] =
+      (.val (.host (flS f).constAdd), []) ∧
+    run (envLib (Fl.one f) (Fl.zero f false) Fl.neg) lib_Conversion_Self_for_V_constant_Float [.ctor0 c_ConstantOp_Sub] =
+      (.val (.host (flS f).constSub), []) := float_constant_is_flS f
+
+end SourceTieLib
 
 end Uom.C03
